@@ -274,4 +274,51 @@ def uploadBinary (checked : Bool) (bs timeout interval lat : Nat) (retry : Int) 
   if bs = 0 then (.pyError "ValueError", ⟨dev, 0⟩)   -- range() arg 3 must not be zero
   else uploadLoop checked timeout interval lat (chunks bs binary) firstBlock retry ⟨dev, 0⟩
 
+/-! ### the repaired loop: a block whose request got no answer is sent again (fixes/C18-5)
+
+`for chunk in chunks(...)`: `tries = retry`; `while True:` the request; 00h / 80h + a wait that went well `break`;
+`IpmiTimeoutError`: `tries -= 1`, `if tries <= 0: raise`, `continue` - the SAME chunk with the SAME number.
+Which of the two loops the source has is read by the translator (`Gen.Hpm.uploadResend`) and probed on the real
+code by the harness. -/
+
+/-- the `while True:` around one block.  `none` = `break` (go on with the next block); fuel = number of
+requests this block may still cost (`tries` of them can be unanswered, see `uploadLoopR`). -/
+def sendBlockR (checked : Bool) (timeout interval lat : Nat) (num : Nat) (c : List Nat) :
+    Nat → Int → St → Option (Outcome Unit) × St
+  | 0, _, s => (some (.pyError "fuel"), s)
+  | f + 1, tries, s =>
+    match s.dev.upload num c with
+    | (.cc cc, d) =>
+      if cc = 0 then (none, ⟨d, s.now + lat⟩)
+      else if cc = ccInProgress then
+        if afterWait checked (waitLong timeout interval lat ⟨d, s.now + lat⟩).1 then
+          (none, (waitLong timeout interval lat ⟨d, s.now + lat⟩).2)
+        else (some .hpmError, (waitLong timeout interval lat ⟨d, s.now + lat⟩).2)
+      else (some .hpmError, ⟨d, s.now + lat⟩)
+    | (.silent, d) =>
+      if tries - retryDec ≤ retryFloor then (some .timeoutError, ⟨d, s.now + lat⟩)
+      else sendBlockR checked timeout interval lat num c f (tries - retryDec) ⟨d, s.now + lat⟩
+    | (.status _ _, d) => (some (.pyError "?"), ⟨d, s.now + lat⟩)
+
+/-- body of `for chunk in chunks(binary, block_size)` of the repaired `upload_binary` -/
+def uploadLoopR (checked : Bool) (timeout interval lat : Nat) (retry : Int) :
+    List (List Nat) → Nat → St → Outcome Unit × St
+  | [], _, s => (.ok (), s)
+  | c :: cs, num, s =>
+    match sendBlockR checked timeout interval lat num c (retry.toNat + 1) retry s with
+    | (none, s') => uploadLoopR checked timeout interval lat retry cs ((num + blockIncr) &&& blockMask) s'
+    | (some o, s') => (o, s')
+
+/-- the repaired `Hpm.upload_binary(binary, timeout, interval, retry)` with block size `bs` -/
+def uploadBinaryR (checked : Bool) (bs timeout interval lat : Nat) (retry : Int) (binary : List Nat) (dev : Dev) :
+    Outcome Unit × St :=
+  if bs = 0 then (.pyError "ValueError", ⟨dev, 0⟩)
+  else uploadLoopR checked timeout interval lat retry (chunks bs binary) firstBlock ⟨dev, 0⟩
+
+/-- `upload_binary` as the source has it: `resend = Gen.Hpm.uploadResend` -/
+def uploadBinaryV (resend checked : Bool) (bs timeout interval lat : Nat) (retry : Int) (binary : List Nat)
+    (dev : Dev) : Outcome Unit × St :=
+  if resend then uploadBinaryR checked bs timeout interval lat retry binary dev
+  else uploadBinary checked bs timeout interval lat retry binary dev
+
 end PyIpmi.Hpm
